@@ -74,7 +74,7 @@ class C05(Prop):
     assumptions = ['exactly accumulation_steps train-mode passes per step; scheduler factor tables keep the intervals >= 1',
                    'compute_inverses=False is honoured only when the next step is a refresh step (documented requirement), otherwise forced True',
                    'tolerances as in DESIGN.md 2.2 (c=16 sqrt(n) eps kappa plus the factor rounding term); looser than 5e-2 counts as uninformative']
-    examples = {'quick': 150, 'thorough': 600}
+    examples = {'quick': 250, 'thorough': 600}
     shards = {'quick': 4, 'thorough': 16}
     shrink_budget_s = {'quick': 30.0, 'thorough': 180.0}
     required_labels = {'quick': ['nontrivial=True', 'stale_step=True', 'has_ckpt=True', 'has_sched=True'],
